@@ -11,6 +11,7 @@ struct SorterSpec {
 	mtbl_threadpool *pool = nullptr;
 	int finish = 0;			// 0 iterate, 1 mtbl_sorter_write to a writer + read back, 2 destroy without iterating
 	int mfunc = 0;			// merge function family (mergelib.h)
+	bool fail_on_F = false;		// pooled sorters: the (stateless) callback refuses to merge two values that begin with 'F'
 	bool stateless_merge = false;	// pooled sorters: the callback must not touch shared harness state
 	uint64_t mergefail = 0;		// callback returns NULL at its j-th invocation (non-pooled only)
 	bool late_calls = false;	// after iteration started: further add/write calls must be refused
